@@ -350,6 +350,28 @@ func (v Value) String() string {
 	return fmt.Sprint(v.value)
 }
 
+// native returns the Go value a formatting verb should see: numbers, strings and booleans as their Go
+// counterparts (so that %d, %5.2f, %x, %q, %t ... work), everything else as the Value itself (%v, %s).
+func (v Value) native() any {
+	switch v.t {
+	case TypeBool:
+		return v.Bool()
+	case TypeInt32, untypedInt:
+		return int32(v.num)
+	case TypeUint32:
+		return uint32(v.num)
+	case TypeInt8:
+		return int8(v.num)
+	case TypeUint8:
+		return uint8(v.num)
+	case TypeFloat64:
+		return v.num
+	case TypeString:
+		return string(v.value.(stringT))
+	}
+	return v
+}
+
 func (v Value) Bool() bool {
 	return v.num != 0
 }
